@@ -484,13 +484,14 @@ func walkerChainRules(c *Ctx, f *ssa.Function, recCalls []*ssa.Call, ruleCopy, r
 					r.Ob(ruleCopy, relName(g)+" ChainAppend receiver", t.Pos(call.Pos()), fresh, "ChainAppend must be applied to a fresh copy (Copy()/NewErr), never to an error object that is stored and shared: receiver is "+path(recv))
 				}
 				posArg = call.Call.Args[2]
-			case funcIs(cal, pErr, "NewErr") && len(recCalls) > 0 && strings.Contains(path(call.Call.Args[0]), ".Name"):
+			case funcIs(cal, pErr, "NewErr") && len(recCalls) > 0 && (strings.Contains(path(call.Call.Args[0]), ".Name") || func() bool { _, in := inCallRefLoop(g, call); return in }()):
 				posArg = call.Call.Args[1]
 			default:
 				return
 			}
 			if viaCall == nil {
 				checkCallSitePos(c, f, call, posArg, recCalls)
+				checkCallSiteName(c, f, call, rulePos)
 				return
 			}
 			// inside a helper: translate the helper's parameter to the walker's argument and judge at the call
@@ -543,4 +544,49 @@ func walkerChainRules(c *Ctx, f *ssa.Function, recCalls []*ssa.Call, ruleCopy, r
 		}
 		visit(g, call)
 	})
+}
+
+// checkCallSiteName: inside the loop over <script>.CallRef, a call site is reported under the name of the script
+// whose CallRef is being walked — the script that contains the use() call — not under the name of the root being
+// linked or any other name the walker carries along.
+func checkCallSiteName(c *Ctx, f *ssa.Function, site *ssa.Call, rule string) {
+	r, t := c.R, c.T
+	owner, inLoop := inCallRefLoop(f, site)
+	if owner == nil || !inLoop {
+		return // not a walker over Script.CallRef, or e.g. the cycle report issued before the loop
+	}
+	cal := site.Call.StaticCallee()
+	var nameArg ssa.Value
+	if funcIs(cal, pErr, "PlError.ChainAppend") {
+		nameArg = site.Call.Args[1]
+	} else {
+		nameArg = site.Call.Args[0]
+	}
+	want := owner.Name() + ".Name"
+	r.Ob(rule, fmt.Sprintf("%s %s script-name argument #%d", relName(f), cal.Name(), retOrdinalInstr(f, site)), t.Pos(site.Pos()), path(nameArg) == want,
+		fmt.Sprintf("name is %s; the call site lies in the script whose CallRef is walked (%s) — any other name reports an intermediate call site in the wrong script", path(nameArg), want))
+}
+
+// inCallRefLoop: the parameter whose CallRef list f walks, and whether site lies inside that loop. "Inside" =
+// dominated by the block that fetches the current element (error exits leave the natural loop, so membership in
+// it would miss exactly the reporting blocks).
+func inCallRefLoop(f *ssa.Function, site ssa.Instruction) (*ssa.Parameter, bool) {
+	var owner *ssa.Parameter
+	allInstrs(f, func(in ssa.Instruction) {
+		if fa, ok := in.(*ssa.FieldAddr); ok && fieldName(fa) == "CallRef" {
+			if p, isP := fa.X.(*ssa.Parameter); isP {
+				owner = p
+			}
+		}
+	})
+	if owner == nil {
+		return nil, false
+	}
+	inLoop := false
+	allInstrs(f, func(in ssa.Instruction) {
+		if ia, ok := in.(*ssa.IndexAddr); ok && strings.HasSuffix(path(ia.X), owner.Name()+".CallRef") && ia.Block().Dominates(site.Block()) {
+			inLoop = true
+		}
+	})
+	return owner, inLoop
 }
